@@ -58,8 +58,9 @@ func (h *JsonHandler) WithAttrs(attrs []slog.Attr) Handler {
 
 	h2 := h.clone()
 	for _, a := range attrs {
-		appendJsonAttr(&h2.preformatted, a, h2.addSep, h2.Options.colorful)
-		h2.addSep = true
+		if appendJsonAttr(&h2.preformatted, a, h2.addSep, h2.Options.colorful) {
+			h2.addSep = true
+		}
 	}
 	return h2
 }
@@ -124,8 +125,9 @@ func (h *JsonHandler) Handle(_ context.Context, r slog.Record) error {
 	if r.NumAttrs() > 0 {
 		addSep := h.addSep
 		r.Attrs(func(a slog.Attr) bool {
-			appendJsonAttr(buf, a, addSep, h.Options.colorful)
-			addSep = true
+			if appendJsonAttr(buf, a, addSep, h.Options.colorful) {
+				addSep = true
+			}
 			return true
 		})
 	}
@@ -140,33 +142,43 @@ func (h *JsonHandler) Handle(_ context.Context, r slog.Record) error {
 	return err
 }
 
-func appendJsonAttr(buf *[]byte, a slog.Attr, addSep bool, colorful bool) {
+// appendJsonAttr reports whether it appended anything: an inline group without members
+// (after resolving LogValuers) leaves no trace, so the caller must not expect a separator.
+func appendJsonAttr(buf *[]byte, a slog.Attr, addSep bool, colorful bool) (appended bool) {
+	a.Value = a.Value.Resolve()
+	if a.Value.Kind() == slog.KindGroup && len(a.Key) == 0 {
+		// inline group: its members are spliced into the enclosing object
+		for _, aa := range a.Value.Group() {
+			if appendJsonAttr(buf, aa, addSep, colorful) {
+				addSep, appended = true, true
+			}
+		}
+		return appended
+	}
+
 	if addSep {
 		*buf = append(*buf, ',')
 		addSep = false
 	}
 
-	a.Value = a.Value.Resolve()
 	if a.Value.Kind() == slog.KindGroup {
-		if len(a.Key) > 0 {
-			*buf = append(*buf, '"')
-			appendJsonString(buf, a.Key)
-			*buf = append(*buf, '"', ':', '{')
-		}
+		*buf = append(*buf, '"')
+		appendJsonString(buf, a.Key)
+		*buf = append(*buf, '"', ':', '{')
 		for _, aa := range a.Value.Group() {
-			appendJsonAttr(buf, aa, addSep, colorful)
-			addSep = true
+			if appendJsonAttr(buf, aa, addSep, colorful) {
+				addSep = true
+			}
 		}
-		if len(a.Key) > 0 {
-			*buf = append(*buf, '}')
-		}
-		return
+		*buf = append(*buf, '}')
+		return true
 	}
 
 	*buf = append(*buf, '"')
 	appendJsonString(buf, a.Key)
 	*buf = append(*buf, '"', ':')
 	appendJsonValue(buf, a.Value, colorful)
+	return true
 }
 
 func appendJsonValue(buf *[]byte, v slog.Value, colorful bool) {
